@@ -16,6 +16,10 @@ P = {
          "TLA+ reference encoder/decoder as the format definition; byte-for-byte replay of TLC-enumerated encodings (all legal forms) into the library",
          "Enc in spec/Codec.tla is the wire format, written from the format documentation and anchored to Scala-produced bytes; the library's bytes must equal it on every enumerated case and every alternative legal form (unknown-length sequences, chunked tuples, any hash order) must decode to the value.",
          "the specification is the reference; independence from the code rests on the golden file, the pinned Point vector and the documentation"),
+ "C03": (True, "model_checking", "6 C03",
+         "TLA+ Adt.tla: TLC enumerates all legal evolution histories and checks mechanism (header/chunks/regions) = documented outcome; each history is rendered as derive inputs (one Rust type per version) and every (writer, reader, value, embedding) case replayed",
+         "every legal history up to 2 steps (quick) / 3 steps (thorough) from every initial record of 1-2 fields, all version pairs, all values, four embeddings (top level, in a tuple, in a chunk, in a vector in a chunk); expected outcome computed by the specification's Expected operator written from the documentation; vacuity guards: dropping the legality rule or the DESIGN-9 exclusion makes TLC fail.",
+         "field types limited to u8/Option<u8> (plus String and a nested record in the rich configuration); histories bounded; gen_decl.py trusted to render declarations"),
  "C07": (True, "model_checking", "6 C07",
          "TLC invariant SelfDelimiting on the spec; replay of encoding++suffix through a DeserializationContext counting bytes left",
          "every enumerated encoding followed by each suffix of a suffix set decodes to the same value and leaves exactly the suffix; checked on the spec by TLC and on the code by replay.",
